@@ -83,6 +83,8 @@ var fuzzSteps = []StateOp{
 	{Op: "setflags", Sel: 0, Fdflags: 4},
 	{Op: "seek", Sel: 0, N: 5},
 	{Op: "seek", Sel: 0, N: 1000},
+	{Op: "closefd", To: 0},
+	{Op: "closefd", To: 1},
 }
 
 // decodeHead decodes engine, pages, function and preparation steps:
